@@ -298,6 +298,8 @@ class Evaluator:
         if e.keywords and any(k.arg is None for k in e.keywords):
             raise NotStatic("**kwargs")
         f = e.func
+        if isinstance(f, ast.Attribute) and isinstance(f.value, ast.Name) and f.value.id == "dict" and f.attr == "fromkeys":
+            return dict.fromkeys(*self._elts(e.args))
         if isinstance(f, ast.Attribute):
             recv = self.eval(f.value)
             args = self._elts(e.args)
@@ -310,6 +312,8 @@ class Evaluator:
                 return getattr(recv, f.attr)(*args)
             if isinstance(recv, (frozenset, set)) and f.attr in ("union", "difference", "intersection"):
                 return getattr(recv, f.attr)(*args)
+            if isinstance(f.value, ast.Name) and f.value.id == "dict" and f.attr == "fromkeys":
+                return dict.fromkeys(*args)
             raise NotStatic(f"method {f.attr}")
         if isinstance(f, ast.Name):
             if f.id in self.env and callable(self.env[f.id]):
